@@ -686,3 +686,17 @@ def rule_tte(F, R):
             R.obligation(not inter, 'T tte disjoint')
             if inter: R.violation('rsbdd::truth_table::TruthTableEntry::matches / T / overlap %s-%s' % (vs[i], vs[j]), 'T', 'spellings %s select both %s and %s' % (sorted(inter), vs[i], vs[j]))
     R.sample({'rule': 'T filter spellings', 'table': {k: sorted(v) for k, v in tab.items()}})
+    # from_str searches the list of variants with `matches`: the list must hold every variant (a spelling whose variant is not listed is refused)
+    TT_ = 'rsbdd::truth_table::TruthTableEntry'
+    tv = lib.ithir.get(TT_ + '::variants')
+    if tv is not None:
+        arrs = [x for x in walk(tv['body']) if x['k'] == 'Array']
+        listed = set()
+        for a_ in arrs:
+            for f_ in a_['fields']:
+                g_ = f_
+                while g_['k'] in ('Borrow', 'Deref', 'Use'): g_ = g_.get('arg') or g_.get('source')
+                if g_['k'] == 'Adt' and canon(g_['adt']) == TT_: listed.add(g_['variant'])
+        ok = listed == {'True', 'False', 'Any'}
+        R.count('T:filter-variants-listed'); R.obligation(ok, 'T tte variants')
+        if not ok: R.violation(TT_ + '::variants / T / list of variants', 'T', 'the list searched by from_str holds %s; every one of True, False, Any must be in it (its spellings are refused otherwise)' % sorted(listed))
